@@ -522,7 +522,7 @@ func panicSite(stack string) string {
 	lines := strings.Split(stack, "\n")
 	seenPanic := false
 	first := true
-	for _, l := range lines {
+	for li, l := range lines {
 		if strings.HasPrefix(l, "panic(") {
 			seenPanic = true
 			continue
@@ -535,7 +535,10 @@ func panicSite(stack string) string {
 		// whoever calls such a method must check the pointer)
 		// (only the harness's own data types count as the data's code: a panic inside a library function that plush
 		// called with a value it should have checked -- a nil *regexp.Regexp, say -- is plush's)
-		if first && !isPlush && !strings.Contains(stack, "called using nil *") && strings.HasPrefix(l, "main.") && !strings.HasPrefix(l, "main.guarded") {
+		// (... and a method the compiler generated -- the wrapper that promotes a method from an embedded member -- is
+		// nobody's code: a struct embedding a nil pointer is plain data)
+		autogen := li+1 < len(lines) && strings.Contains(lines[li+1], "<autogenerated>")
+		if first && !isPlush && !autogen && !strings.Contains(stack, "called using nil *") && strings.HasPrefix(l, "main.") && !strings.HasPrefix(l, "main.guarded") {
 			if i := strings.LastIndex(l, "("); i > 0 {
 				l = l[:i]
 			}
